@@ -532,6 +532,20 @@ func zeroFields(h map[string]SV, recv string, t types.Type) {
 		case *types.Slice:
 			l := symInt(0)
 			h[key] = SV{K: "slice", Desc: key, Len: &l, Cap: &l, Known: true, Nil: true}
+		case *types.Array:
+			if eb, ok := u.Elem().Underlying().(*types.Basic); ok && u.Len() <= 512 {
+				for j := int64(0); j < u.Len(); j++ {
+					ek := fmt.Sprintf("%s[%d]", key, j)
+					switch {
+					case eb.Info()&types.IsBoolean != 0:
+						h[ek] = symBool(false)
+					case eb.Info()&types.IsInteger != 0:
+						h[ek] = symInt(0)
+					case eb.Info()&types.IsString != 0:
+						h[ek] = symStr("")
+					}
+				}
+			}
 		case *types.Pointer, *types.Map, *types.Interface:
 			h[key] = symNil()
 		case *types.Struct:
